@@ -411,6 +411,9 @@ func (l *linkedBuffer) Peek(size int) ([]byte, error) {
 }
 
 func (l *linkedBuffer) Discard(size int) (n int, err error) {
+	if size <= 0 {
+		return 0, nil
+	}
 	if l.len < size {
 		if err = l.stream.readMore(size); err != nil {
 			return
